@@ -11,6 +11,7 @@ import (
 	"sort"
 	"strconv"
 	"strings"
+	"sync"
 	"time"
 )
 
@@ -282,6 +283,7 @@ func cmdLock(args []string) {
 	sort.Strings(und)
 	os.WriteFile(filepath.Join(verifDir, "obligations.lock"), []byte("# obligations discharged on the reference tree: <name>\\t<properties>\n"+strings.Join(lock, "\n")+"\n"), 0o644)
 	os.WriteFile(filepath.Join(verifDir, "undecided.txt"), []byte("# generated but neither discharged nor confirmed as a defect on the reference tree (not claimed)\n"+strings.Join(und, "\n")+"\n"), 0o644)
+	writeNamesLock(p)
 	fmt.Printf("lock: %d discharged, %d undecided, %d known findings\n", len(lock), len(und), len(findings))
 }
 
@@ -395,22 +397,45 @@ func cmdCheck(args []string) {
 		return true
 	})
 	// a locked obligation that fails under parallel load is retried alone with a longer limit before it counts
-	for _, g := range gens {
-		for _, o := range g.obls {
-			if _, locked := lock[o.Name]; locked && o.Status != "" && !oblOK(o) && hasProp(propsOf(g.F, o), id) {
-				rs, _ := newSolver(timeout*2, false)
-				rs.noSplit = o.Hint != "case-split"
-				rs.prelude, rs.lean = s.prelude, s.lean
-				rs.cacheDir = ""
-				first := o.Status
-				rs.solve(o, g)
-				s.timeS += rs.timeS
-				rs.close()
-				if oblOK(o) {
-					fmt.Printf("note: %s needed a sequential retry (first attempt: %s)\n", o.Name, first)
+	// (at most four at a time: each retry races three solver processes)
+	{
+		type job struct {
+			g *FuncGen
+			o *Obligation
+		}
+		var jobs []job
+		for _, g := range gens {
+			for _, o := range g.obls {
+				if _, locked := lock[o.Name]; locked && o.Status != "" && !oblOK(o) && hasProp(propsOf(g.F, o), id) {
+					jobs = append(jobs, job{g, o})
 				}
 			}
 		}
+		var wg sync.WaitGroup
+		var mu sync.Mutex
+		sem := make(chan struct{}, 4)
+		for _, j := range jobs {
+			wg.Add(1)
+			sem <- struct{}{}
+			go func(j job) {
+				defer wg.Done()
+				defer func() { <-sem }()
+				rs, _ := newSolver(timeout*2, false)
+				rs.noSplit = j.o.Hint != "case-split"
+				rs.prelude, rs.lean = s.prelude, s.lean
+				rs.cacheDir = ""
+				first := j.o.Status
+				rs.solve(j.o, j.g)
+				rs.close()
+				mu.Lock()
+				s.timeS += rs.timeS
+				if oblOK(j.o) {
+					fmt.Printf("note: %s needed a retry with twice the limit (first attempt: %s)\n", j.o.Name, first)
+				}
+				mu.Unlock()
+			}(j)
+		}
+		wg.Wait()
 	}
 	var violations []map[string]interface{}
 	shifted := map[string][]*Obligation{}
